@@ -15,7 +15,9 @@ From MV Require Import Opt.OptAgreeTop.
 From MV Require Import Opt.OptAgreeBlock.
 From MV Require Import Opt.OptAgreeQuoted.
 From MV Require Import Opt.OptAgreeAll.
+From MV Require Import Opt.OptMarksDef.
 From MV Require Import Opt.OptMarks.
+From MV Require Import Opt.OptCommentsDef.
 From MV Require Import Opt.OptComments.
 From MV Require Import Opt.OptNul.
 Import ListNotations.
